@@ -29,6 +29,7 @@ func allInstances() []*Instance {
 	regC05(add, p)
 	regC06(add, p)
 	regC07(add, p)
+	regC08(add, p)
 	return all
 }
 
@@ -125,6 +126,26 @@ func regC17(add addFn, p pFn) {
 		add(&Instance{Property: "C17", Name: "wrap-marshal-p" + itoa(pc[0]) + "-c" + itoa(pc[1]), Entry: "gssapi.VH_C17_WrapMarshal", Params: p("payload", pc[0], "cksum", pc[1]), Tier: tier, Reach: []string{"done"},
 			Bound: "payload and checksum of the given lengths with symbolic contents; flags, RRC, 64-bit sequence number symbolic; EC = checksum length"})
 	}
+	cs := []string{"nfolduf", "des3rtkuf"}
+	for _, et := range allEtypes {
+		for _, n := range []int{0, 1, 2, 17, 100, 300} {
+			tier := "quick"
+			if n >= 100 {
+				tier = "thorough"
+			}
+			add(&Instance{Property: "C17", Name: "wrap-checksum-e" + itoa(et) + "-n" + itoa(n), Entry: "gssapi.VH_C17_WrapChecksum", Params: p("etype", et, "n", n), Stubs: cs, Logic: "QF_UFBV", Tier: tier, Reach: []string{"done"},
+				Bound: "payload of n symbolic bytes; flags, RRC, 64-bit sequence number, key, all 2^32 usages symbolic"})
+			add(&Instance{Property: "C17", Name: "mic-checksum-e" + itoa(et) + "-n" + itoa(n), Entry: "gssapi.VH_C17_MICChecksum", Params: p("etype", et, "n", n), Stubs: cs, Logic: "QF_UFBV", Tier: tier, Reach: []string{"done"},
+				Bound: "payload of n symbolic bytes; flags, sequence number, key, usage symbolic"})
+		}
+		for mode := 0; mode <= 4; mode++ {
+			add(&Instance{Property: "C17", Name: "wrap-binding-e" + itoa(et) + "-m" + itoa(mode), Entry: "gssapi.VH_C17_WrapBinding", Params: p("etype", et, "n", 3, "mode", mode), Stubs: append([]string{"idealmac"}, cs...), Logic: "QF_UFBV", Reach: []string{"checked"},
+				Bound: "3-byte payload; mode 0 payload / 1 flags / 2 sequence number / 3 key / 4 usage changed to ANY other value between checksum computation and verification (idealised MAC)"})
+			add(&Instance{Property: "C17", Name: "mic-binding-e" + itoa(et) + "-m" + itoa(mode), Entry: "gssapi.VH_C17_MICBinding", Params: p("etype", et, "n", 3, "mode", mode), Stubs: append([]string{"idealmac"}, cs...), Logic: "QF_UFBV", Reach: []string{"checked"},
+				Bound: "as wrap-binding"})
+		}
+		add(&Instance{Property: "C17", Name: "initiator-tokens-e" + itoa(et), Entry: "gssapi.VH_C17_InitiatorTokens", Params: p("etype", et, "n", 5), Stubs: cs, Logic: "QF_UFBV", Reach: []string{"done"}, Bound: "5-byte payload, symbolic key"})
+	}
 	for _, c := range []int{0, 12, 16, 24} {
 		add(&Instance{Property: "C17", Name: "mic-marshal-c" + itoa(c), Entry: "gssapi.VH_C17_MICMarshal", Params: p("cksum", c), Reach: []string{"done"}, Bound: "checksum of the given length, symbolic flags and sequence number"})
 	}
@@ -205,4 +226,52 @@ func regC07(add addFn, p pFn) {
 			Reach: []string{"done"}, Bound: "two successive checksum computations with the same key bytes (where the key lengths agree), usage and 5-byte data under two etypes"})
 	}
 	add(&Instance{Property: "C07", Name: "registry", Entry: "crypto.VH_C07_Registry", Reach: []string{"known", "unknown"}, Bound: "all 2^32 checksum type ids and all 2^32 etype ids"})
+}
+
+var ocaMerge = []string{"github.com/jcmturner/gokrb5/v8/crypto/rfc3961.onesComplementAddition", "github.com/jcmturner/gokrb5/v8/crypto/rfc3961.setBit", "github.com/jcmturner/gokrb5/v8/crypto/rfc3961.getBit"}
+
+func regC08(add addFn, p pFn) {
+	for _, n := range []int{1, 2, 8} {
+		add(&Instance{Property: "C08", Name: "ones-add-n" + itoa(n), Entry: "crypto/rfc3961.VH_C08_OnesComplementAddition", Params: p("n", n), Merge: ocaMerge, Logic: "QF_BV", Reach: []string{"done"}, SolverMs: 120000,
+			Bound: "ALL pairs of n-byte operands (8 bytes = the des3 fold width); bit-serial code executed with if-conversion"})
+	}
+	for _, n := range []int{16, 21} {
+		add(&Instance{Property: "C08", Name: "ones-add-n" + itoa(n), Entry: "crypto/rfc3961.VH_C08_OnesComplementAddition", Params: p("n", n), Merge: ocaMerge, Logic: "QF_BV", Tier: "thorough", Reach: []string{"done"}, SolverMs: 600000, TimeoutS: 1500,
+			Bound: "ALL pairs of n-byte operands (16 = AES fold width, 21 = des3 string-to-key fold width)"})
+	}
+	rtkMerge := []string{"github.com/jcmturner/gokrb5/v8/crypto/rfc3961.stretch56Bits", "github.com/jcmturner/gokrb5/v8/crypto/rfc3961.calcEvenParity"}
+	add(&Instance{Property: "C08", Name: "des3-group", Entry: "crypto/rfc3961.VH_C08_DES3Group", Merge: rtkMerge, Reach: []string{"done"}, Bound: "ALL 2^56 seeds of one DES key group (parity expansion, 16 weak/semi-weak corrections)"})
+	add(&Instance{Property: "C08", Name: "des3-random-to-key", Entry: "crypto/rfc3961.VH_C08_DES3RandomToKey", Merge: rtkMerge, Tier: "thorough", Reach: []string{"done"}, TimeoutS: 1500, Bound: "ALL 2^168 seeds"})
+	for _, mn := range [][2]int{{5, 64}, {5, 128}, {8, 64}, {8, 128}, {1, 64}, {16, 128}, {3, 168}, {13, 128}, {9, 168}} {
+		add(&Instance{Property: "C08", Name: "nfold-m" + itoa(mn[0]) + "-n" + itoa(mn[1]), Entry: "crypto/rfc3961.VH_C08_NfoldStructure", Params: p("mlen", mn[0], "nbits", mn[1]), Stubs: []string{"ocadduf"}, Logic: "QF_UFBV", Reach: []string{"done"},
+			Bound: "every input of mlen bytes folded to nbits (5 bytes = key usage constants, 8 = 'kerberos'); addition summarised by one symbol on both sides (its equality with end-around-carry addition is ones-add-*)"})
+	}
+	for mlen := 1; mlen <= 64; mlen++ {
+		for _, nb := range []int{64, 128, 168} {
+			add(&Instance{Property: "C08", Name: "nfold-all-m" + itoa(mlen) + "-n" + itoa(nb), Entry: "crypto/rfc3961.VH_C08_NfoldStructure", Params: p("mlen", mlen, "nbits", nb), Stubs: []string{"ocadduf"}, Logic: "QF_UFBV", Tier: "thorough", Reach: []string{"done"},
+				Bound: "every input of mlen bytes (all lengths 1..64) folded to every output size the library uses"})
+		}
+	}
+	cs := []string{"nfolduf", "des3rtkuf"}
+	for _, et := range allEtypes {
+		for _, cl := range []int{1, 3, 5, 8, 16} {
+			add(&Instance{Property: "C08", Name: "derive-e" + itoa(et) + "-c" + itoa(cl), Entry: "crypto.VH_C08_DeriveKey", Params: p("etype", et, "clen", cl), Stubs: cs, Logic: "QF_UFBV", Reach: []string{"done"},
+				Bound: "derivation constant of clen symbolic bytes, symbolic key"})
+		}
+		if et != 23 {
+			for _, ps := range [][2]int{{0, 0}, {1, 0}, {0, 1}, {3, 4}, {8, 8}} {
+				tier := "quick"
+				if ps[0] == 8 {
+					tier = "thorough"
+				}
+				add(&Instance{Property: "C08", Name: "s2k-e" + itoa(et) + "-p" + itoa(ps[0]) + "-s" + itoa(ps[1]), Entry: "crypto.VH_C08_StringToKey", Params: p("etype", et, "plen", ps[0], "slen", ps[1]), Stubs: cs, Logic: "QF_UFBV", Tier: tier, Reach: []string{"done"},
+					Bound: "password and salt of the given lengths with arbitrary byte contents; ALL 2^32 iteration-count parameters"})
+			}
+		}
+		add(&Instance{Property: "C08", Name: "generated-key-e" + itoa(et), Entry: "crypto.VH_C08_GeneratedKey", Params: p("etype", et), Stubs: cs, Logic: "QF_UFBV", Reach: []string{"done"}, Bound: "every outcome of crypto/rand"})
+	}
+	add(&Instance{Property: "C08", Name: "default-params", Entry: "crypto.VH_C08_DefaultParams", Reach: []string{"done"}, Bound: "the six etypes"})
+	for _, n := range []int{1, 5, 8, 13, 16} {
+		add(&Instance{Property: "C08", Name: "rotate-n" + itoa(n), Entry: "crypto/rfc3961.VH_C08_RotateRight", Params: p("n", n, "reps", 21), Reach: []string{"done"}, Bound: "every n-byte string, rotation steps 13*i for i in 0..20"})
+	}
 }
